@@ -75,6 +75,9 @@ def run(ctx, F, cg):
                             between = True
             if inside and not between and gl:
                 reservers[p] = s
+    from ..wrappers import thin_wrappers
+    from .. import mutpoints as mp_
+    REL = {TM + "decrement_usage"} | thin_wrappers(F, lambda c_: c_ == TM + "decrement_usage", "samyama::persistence::")
     creators = []
     for nm in ("persist_create_node", "persist_create_edge"):
         r = F.fn(PM + nm)
@@ -111,8 +114,20 @@ def run(ctx, F, cg):
             elif c.path.endswith("wal::Wal::append") or "PersistentStorage::put_" in c.path:
                 writes.append(c)
         prop = any(cc.path.endswith("Try>::branch") and cc.args and cc.args[0][0] != "k" and cc.args[0][1][0] == k.dest[0] for cc in b.calls())
+        if not prop:
+            # the explicit form: `if let Err(e) = reserve(..) { return Err(..) }` — no write on the failure side
+            side = mp_.some_side(b, k)
+            if side is not None:
+                sb_, ok_t = side
+                t_ = b.blocks[sb_]["t"]
+                fails = [tgt for v, tgt in t_[2] if tgt != ok_t] + ([t_[3]] if t_[3] != ok_t else [])
+                freach = set()
+                for ft in fails:
+                    freach |= b.reachable(ft, avoid={sb_})
+                errb = {i for i, j, pl, rv, line, exp in b.stmts() if pl[0] == 0 and rv[0] == "agg" and rv[1].endswith("Result::Err")}
+                prop = bool(fails) and not any(w.bb in freach for w in writes) and bool(errb & freach)
         dom = all(b.dominates(k.bb, w.bb) for w in writes)
-        rel = [c for c in b.calls() if c.path == TM + "decrement_usage"]
+        rel = [c for c in b.calls() if c.path in REL]
         # error exits after the reservation: the result of the writes is Err => release passed.
         released = False
         if rel and writes:
@@ -123,6 +138,16 @@ def run(ctx, F, cg):
             q_before = [cc for cc in b.calls() if cc.path.endswith("Try>::branch") and cc.args and cc.args[0][0] != "k" and any(cc.args[0][1][0] == w2.dest[0] for w2 in writes)]
             if q_before:
                 released = False
+            if not released and not q_before:
+                # the match form: every path from the write's failure side to a return passes a release
+                side = mp_.some_side(b, w)
+                if side is not None:
+                    sb_, ok_t = side
+                    t_ = b.blocks[sb_]["t"]
+                    fails = [tgt for v, tgt in t_[2] if tgt != ok_t] + ([t_[3]] if t_[3] != ok_t else [])
+                    relb = {c.bb for c in rel}
+                    rets = b.ret_blocks()
+                    released = bool(fails) and all(b.must_pass(ft, rb, relb) for ft in fails for rb in rets if rb in b.reachable(ft, avoid={sb_}))
         # the unit is given back in exactly one place: nothing called after the reservation adjusts usage itself,
         # and no path passes two releases
         double = None
@@ -148,13 +173,13 @@ def run(ctx, F, cg):
     for p_, r_ in sorted(F.fns.items()):
         if not p_.startswith("samyama::persistence::") or "::tests::" in p_ or "{closure" in p_:
             continue
-        if not any(c in reservers for c in r_["calls"]) or TM + "decrement_usage" not in r_["calls"]:
+        if not any(c in reservers for c in r_["calls"]) or not any(c in REL for c in r_["calls"]):
             continue
         bb_ = Body(F.mir(p_), r_)
         n_rr += 1
         short = p_.replace(PM, "").replace("samyama::persistence::", "")
         resv = [c for c in bb_.calls() if c.path in reservers]
-        rels = [c for c in bb_.calls() if c.path == TM + "decrement_usage"]
+        rels = [c for c in bb_.calls() if c.path in REL]
         bad = None
         COMB = ("as_ref", "map_err", "and_then", "or_else", "map", "branch")
         for rc in rels:
